@@ -508,9 +508,71 @@ class _Canon(ast.NodeTransformer):
                 if not done_:
                     fu.append(st)
             out = fu
+        # S38 a fresh name for a new container that is stored at once: t = []; P = t; ...t...  ->  P = []; ...P...
+        # (P a subscript / attribute place whose parts are not re-bound, and whose base object is not handed to a call, in the rest
+        # of the block: t and P then denote the same object throughout)
+        k_ = 0
+        while k_ + 1 < len(out):
+            a_, b_ = out[k_], out[k_ + 1]
+            if isinstance(a_, ast.Assign) and len(a_.targets) == 1 and isinstance(a_.targets[0], ast.Name) \
+                    and a_.targets[0].id not in self.ref_names and _builds_container(a_.value) \
+                    and isinstance(b_, ast.Assign) and len(b_.targets) == 1 and isinstance(b_.targets[0], (ast.Subscript, ast.Attribute)) \
+                    and isinstance(b_.value, ast.Name) and b_.value.id == a_.targets[0].id and _pure(b_.targets[0]):
+                import copy as _c8
+                t_ = a_.targets[0].id
+                place = b_.targets[0]
+                rest_ = out[k_ + 2:]
+                parts = {x.id for x in ast.walk(place) if isinstance(x, ast.Name)}
+                stable = True
+                for r_ in rest_:
+                    for x in ast.walk(r_):
+                        if isinstance(x, ast.Name) and isinstance(x.ctx, (ast.Store, ast.Del)) and (x.id in parts or x.id == t_):
+                            stable = False
+                        if isinstance(x, (ast.Subscript, ast.Attribute)) and isinstance(x.ctx, (ast.Store, ast.Del)) and U(x) == U(place):
+                            stable = False
+                        if isinstance(x, ast.Call) and any(isinstance(g_, ast.Name) and g_.id in parts and g_.id != t_
+                                                           and isinstance(place, ast.Subscript) and g_.id == getattr(place.value, 'id', None)
+                                                           for g_ in list(x.args) + [kw.value for kw in x.keywords]):
+                            stable = False
+                if stable:
+                    class _AL(ast.NodeTransformer):
+                        def visit_Name(self, n_):
+                            if n_.id == t_ and isinstance(n_.ctx, ast.Load):
+                                p2 = _c8.deepcopy(place)
+                                p2.ctx = ast.Load()
+                                return _relocate(p2, n_)
+                            return n_
+                    out[k_:k_ + 2] = [_relocate(ast.Assign(targets=[place], value=a_.value), b_)]
+                    for j_ in range(k_ + 1, len(out)):
+                        out[j_] = _AL().visit(out[j_])
+                    self.steps.append('S38 ' + U(out[k_])[:60])
+                    continue
+            k_ += 1
         # S10 inert statements that the reference does not have
+        def _inert(st_):
+            if isinstance(st_, ast.Pass):
+                return True
+            if isinstance(st_, ast.Assert) and _pure(st_.test) and (st_.msg is None or _pure(st_.msg)):
+                return True         # assertions are the author's claims: assumed to hold (and absent under -O)
+            if isinstance(st_, ast.For) and not st_.orelse and _pure(st_.iter) and all(_inert(b) for b in st_.body) \
+                    and not any(isinstance(x, ast.Name) and x.id in self.ref_names for x in ast.walk(st_.target)):
+                return True
+            if isinstance(st_, ast.Expr) and isinstance(st_.value, ast.Call) and isinstance(st_.value.func, ast.Name) \
+                    and st_.value.func.id == 'print' and any(k.arg == 'file' and U(k.value) == 'sys.stderr' for k in st_.value.keywords) \
+                    and all(_pure(a) for a in st_.value.args) and all(_pure(k.value) for k in st_.value.keywords):
+                return True
+            if isinstance(st_, ast.If) and _pure(st_.test) and all(_inert(b) for b in st_.body) and all(_inert(b) for b in st_.orelse):
+                return True
+            return False
         kept = []
         for st in out:
+            if isinstance(st, ast.If) and U(st.test) not in self.tests and _inert(st) and U(st) not in self.stmt_set:
+                # a diagnostic: a pure test guarding nothing but messages on stderr
+                self.steps.append('S10 ' + U(st)[:60])
+                continue
+            if isinstance(st, (ast.Assert, ast.For)) and _inert(st) and U(st) not in self.stmt_set:
+                self.steps.append('S10 ' + U(st)[:60])
+                continue
             if U(st) not in self.stmt_set:
                 if isinstance(st, ast.Expr) and isinstance(st.value, ast.Call) and isinstance(st.value.func, ast.Name) \
                         and st.value.func.id == 'print' and any(k.arg == 'file' and U(k.value) == 'sys.stderr' for k in st.value.keywords) \
@@ -712,6 +774,112 @@ def refnames_of(q):
     return refnames().get(q, ())
 
 
+def fold_get_guards(fn, shapes):
+    """Step S39.  `X.get(K) is None` / `is not None` in a test  ->  `K not in X` / `K in X`, and under such a guard
+    `X.get(K)` -> `X[K]`.  Equal whenever no value stored in X is None - the tables this code base keeps in dictionaries hold
+    lists, dicts, numbers and strings (assumption A9, DESIGN section 3); applied only when the resulting membership test /
+    subscript is one the reference function has."""
+    cmps = set(shapes.get('cmp', ())) | set(shapes.get('tests', ()))
+    subs = set(shapes.get('subs', ())) | cmps | set(shapes.get('stmts', ()))
+    steps = []
+
+    def as_get(e):
+        if isinstance(e, ast.Call) and isinstance(e.func, ast.Attribute) and e.func.attr == 'get' and len(e.args) == 1 and not e.keywords \
+                and _pure(e.func.value) and _pure(e.args[0]):
+            return e.func.value, e.args[0]
+        return None
+
+    class Tests(ast.NodeTransformer):
+        def visit_Compare(self, n):
+            self.generic_visit(n)
+            if len(n.ops) == 1 and isinstance(n.ops[0], (ast.Is, ast.IsNot)) and isinstance(n.comparators[0], ast.Constant) \
+                    and n.comparators[0].value is None:
+                g = as_get(n.left)
+                if g is not None:
+                    new = ast.Compare(left=g[1], ops=[ast.NotIn() if isinstance(n.ops[0], ast.Is) else ast.In()], comparators=[g[0]])
+                    alt = ast.Compare(left=g[1], ops=[ast.In() if isinstance(n.ops[0], ast.Is) else ast.NotIn()], comparators=[g[0]])
+                    if U(new) in cmps or U(alt) in cmps:
+                        steps.append('S39 %s' % U(n)[:60])
+                        return _relocate(new, n)
+            return n
+
+    def subst(node, known):
+        class G(ast.NodeTransformer):
+            def visit_Call(self, c):
+                self.generic_visit(c)
+                g = as_get(c)
+                if g is not None and (U(g[0]), U(g[1])) in known:
+                    new = ast.Subscript(value=g[0], slice=g[1], ctx=ast.Load())
+                    if U(new) in subs or any(U(new) in t for t in subs):
+                        steps.append('S39 %s -> %s' % (U(c)[:40], U(new)[:40]))
+                        return _relocate(new, c)
+                return c
+        return G().visit(node)
+
+    def pair_of(test, positive):
+        """the (X, K) made present by `test` being true (positive) / false"""
+        if isinstance(test, ast.Compare) and len(test.ops) == 1:
+            if isinstance(test.ops[0], ast.In) and positive:
+                return (U(test.comparators[0]), U(test.left))
+            if isinstance(test.ops[0], ast.NotIn) and not positive:
+                return (U(test.comparators[0]), U(test.left))
+        return None
+
+    def stored_names(st):
+        return {x.id for x in ast.walk(st) if isinstance(x, ast.Name) and isinstance(x.ctx, (ast.Store, ast.Del))}
+
+    def names_of(pair):
+        out = set()
+        for t in pair:
+            try:
+                out |= {x.id for x in ast.walk(ast.parse(t, mode='eval')) if isinstance(x, ast.Name)}
+            except SyntaxError:
+                pass
+        return out
+
+    def walk(block, known):
+        known = set(known)
+        for i, st in enumerate(block):
+            if isinstance(st, ast.If):
+                st.test = Tests().visit(subst(st.test, known))
+                p_t, p_f = pair_of(st.test, True), pair_of(st.test, False)
+                walk(st.body, known | ({p_t} if p_t else set()))
+                walk(st.orelse, known | ({p_f} if p_f else set()))
+                if p_f and _terminates(st.body) and not st.orelse:
+                    known.add(p_f)
+                if p_t and _terminates(st.orelse) and st.orelse:
+                    known.add(p_t)
+            elif isinstance(st, (ast.For, ast.While)):
+                killed = stored_names(st)
+                inner = {p for p in known if not (names_of(p) & killed)}
+                if isinstance(st, ast.For):
+                    st.iter = subst(st.iter, known)
+                else:
+                    st.test = Tests().visit(subst(st.test, inner))
+                walk(st.body, inner)
+                walk(st.orelse, inner)
+                known = inner
+            elif isinstance(st, ast.Try):
+                walk(st.body, known)
+                for h in st.handlers:
+                    walk(h.body, set())
+                walk(st.orelse, set())
+                walk(st.finalbody, set())
+                known = set()
+            elif isinstance(st, ast.With):
+                walk(st.body, known)
+                known = set()
+            elif isinstance(st, (ast.FunctionDef, ast.AsyncFunctionDef, ast.ClassDef)):
+                pass
+            else:
+                block[i] = subst(st, known)
+                killed = stored_names(st)
+                known = {p for p in known if not (names_of(p) & killed)}
+    if any(as_get(x) is not None for x in ast.walk(fn)):
+        walk(fn.body, set())
+    return steps
+
+
 def canonicalise(rel, module):
     """Canonicalise every function of `module` that has a reference entry; returns {function: [steps]}."""
     ref = refshapes()
@@ -721,6 +889,9 @@ def canonicalise(rel, module):
         if r is None:
             continue
         c = _Canon(r)
+        got = fold_get_guards(fn, r)
+        if got:
+            c.steps.extend(got)
         c.ref_names = set(refnames_of(rel + '::' + lname))
         c.loaded = {x.id for x in ast.walk(fn) if isinstance(x, ast.Name) and isinstance(x.ctx, ast.Load)}
         c.generic_visit(fn)          # fn itself is a scope node: visit its children
@@ -787,6 +958,78 @@ def _builds_container(v):
     if isinstance(v, ast.Call) and isinstance(v.func, ast.Name) and v.func.id in ('list', 'dict', 'set', 'sorted', 'Counter'):
         return True
     return False
+
+
+def _stmt_index(fn):
+    """id(expression node) -> (innermost statement, the For statement when the node sits in that loop's iterable else None)."""
+    out = {}
+
+    def visit(st):
+        for field, val in ast.iter_fields(st):
+            vals = val if isinstance(val, list) else [val]
+            for child in vals:
+                if isinstance(child, ast.stmt):
+                    visit(child)
+                elif isinstance(child, ast.ExceptHandler):
+                    if child.type is not None:
+                        for x in ast.walk(child.type):
+                            out[id(x)] = (st, None)
+                    for b in child.body:
+                        visit(b)
+                elif isinstance(child, ast.AST):
+                    in_iter = st if (isinstance(st, (ast.For, ast.AsyncFor)) and field == 'iter') else None
+                    for x in ast.walk(child):
+                        out[id(x)] = (st, in_iter)
+    for b in fn.body:
+        visit(b)
+    return out
+
+
+def _kills_cannot_reach_uses(fn, kill_nodes, use_nodes):
+    """Path-sensitive part of S9's stability test: True when no statement that changes an input of the temporary's value can be
+    followed, on any path of the statement CFG, by a statement that reads the temporary.  The iterable of a `for` is evaluated
+    once, on entry: edges from the loop's own body back into its header do not count as reaching that use."""
+    try:
+        from .cfg import CFG
+        cfg = CFG(fn)
+    except Exception:
+        return False
+    idx = _stmt_index(fn)
+    kills = set()
+    for k in kill_nodes:
+        ent = idx.get(id(k))
+        if ent is None or cfg.node_of(ent[0]) is None:
+            return False
+        kills.add(cfg.node_of(ent[0]))
+    uses = []
+    for u in use_nodes:
+        ent = idx.get(id(u))
+        if ent is None or cfg.node_of(ent[0]) is None:
+            return False
+        st, in_iter = ent
+        body_nodes = set()
+        if in_iter is not None:
+            for b in in_iter.body:
+                for x in ast.walk(b):
+                    if isinstance(x, ast.stmt) and cfg.node_of(x) is not None:
+                        body_nodes.add(cfg.node_of(x))
+        uses.append((cfg.node_of(st), body_nodes))
+    for k in kills:
+        for un, blocked in uses:
+            seen = set()
+            todo = [b for b, lab in cfg.succ[k] if not (b == un and k in blocked)]
+            while todo:
+                a = todo.pop()
+                if a in seen:
+                    continue
+                seen.add(a)
+                if a == un:
+                    return False
+                for b, lab in cfg.succ[a]:
+                    if b == un and a in blocked:
+                        continue
+                    todo.append(b)
+    return True
 
 
 def inline_fresh_temps(rel, module, refnames):
@@ -946,6 +1189,7 @@ def inline_fresh_temps(rel, module, refnames):
                             if last is None or inside != len(loads[t]):
                                 continue
                             touched = False
+                            kill_nodes = []
                             for j in range(i + 1, last + 1):
                                 scan = blk[j]
                                 if j == last and isinstance(blk[j], ast.Assign) and \
@@ -954,19 +1198,23 @@ def inline_fresh_temps(rel, module, refnames):
                                 for x in ast.walk(scan):
                                     if isinstance(x, ast.Name) and isinstance(x.ctx, (ast.Store, ast.Del)) and x.id in deps:
                                         touched = True
+                                        kill_nodes.append(x)
                                     if isinstance(x, ast.Call) and isinstance(x.func, ast.Attribute) and isinstance(x.func.value, ast.Name) \
                                             and x.func.value.id in deps and x.func.attr in ('append', 'extend', 'insert', 'pop', 'remove',
                                                                                              'sort', 'reverse', 'clear', 'update'):
                                         touched = True
+                                        kill_nodes.append(x)
                                     if adeps:
                                         if isinstance(x, (ast.Attribute, ast.Subscript)) and isinstance(x.ctx, (ast.Store, ast.Del)) \
                                                 and any(U(x).startswith(a_) for a_ in adeps):
                                             touched = True
+                                            kill_nodes.append(x)
                                         if j < last and isinstance(x, ast.Call) and isinstance(x.func, ast.Attribute) \
                                                 and isinstance(x.func.value, ast.Name) and x.func.value.id == 'self' \
                                                 and any(a_.split('.')[1] in rebound_attrs for a_ in adeps if a_.startswith('self.') and '.' in a_):
                                             touched = True        # a method call before the last use may rebind the attribute
-                            if touched:
+                                            kill_nodes.append(x)
+                            if touched and not _kills_cannot_reach_uses(fn, kill_nodes, loads[t]):
                                 continue
                             import copy as _cc
                             uses = list(loads[t])
